@@ -40,12 +40,25 @@ CONSTANTS NI,        \* number of loop instances (scatter elements around the lo
           Counts,    \* admissible iteration counts; Init chooses N \in [1..NI -> Counts]
           Outs,      \* outputs of the loop step; "o1" is fed back to the loop variable
           Scatter,   \* TRUE: instance tags are 0.j (loop inside a scatter); FALSE: the instance tag is 0
+          IdxSet,    \* the NI scatter indices of the loop instances; Idx = IdxSet in increasing order: the tag of
+                     \* instance i is 0.Idx[i].  0..NI-1 is a full scatter; a sparse IdxSet (e.g. {1, 10, 11})
+                     \* is a scatter whose other elements never reach the loop (`when` on the scattered step) or,
+                     \* read as a projection, the instances of a wide scatter that are still alive.  Tags are
+                     \* sequences of NATURALS: 0.1 is not a prefix of 0.10 and 0.10 is not an iteration of 0.1,
+                     \* whatever their decimal renderings look like (StrRelated below names that input class).
           Eager      \* TRUE: partial-order reduction, see "Reduction" below (FALSE = every interleaving)
 
 ASSUME /\ NI \in Nat \ {0} /\ Counts \subseteq Nat /\ "o1" \in Outs /\ (Scatter \/ NI = 1)
+       /\ IdxSet \subseteq Nat /\ Cardinality(IdxSet) = NI
 
 Inst == 1..NI
-ITag(i) == IF Scatter THEN <<0, i - 1>> ELSE <<0>>
+Idx == [i \in Inst |-> CHOOSE v \in IdxSet : Cardinality({w \in IdxSet : w < v}) = i - 1]
+ITag(i) == IF Scatter THEN <<0, Idx[i]>> ELSE <<0>>
+\* Input class "many concurrent instances with multi-digit tags": the decimal rendering of one instance's
+\* scatter index is a proper STRING prefix of another's (1 and 10..19, 2 and 20..29, 1 and 100..199 ..).
+\* Nothing in the specification depends on it; the driver requires that the bound behaviours exercise it.
+DecPrefix(a, b) == a > 0 /\ \E k \in 1..4 : b \div (10 ^ k) = a
+StrRelated == Scatter /\ \E i, j \in Inst : DecPrefix(Idx[i], Idx[j])
 InstOf(tag) == CHOOSE i \in Inst : ITag(i) = tag
 Prefix(tag) == SubSeq(tag, 1, Len(tag) - 1)              \* ".".join(tag.split(".")[:-1])
 LastC(tag) == tag[Len(tag)]                               \* int(tag.split(".")[-1])
@@ -70,7 +83,8 @@ VARIABLES N,       \* [Inst -> Counts] the conditional's decisions (fixed in Ini
           q6, tm,  \* [Outs -> queue of TM]; TM state [have, term, done]
           bpdone,
           em,      \* [Outs -> [instance tag -> sequence of emitted outputs]]   (what I1/I2 talk about)
-          hist     \* history only: everything put on p3, p4, p8[x], p6[x], in order
+          hist     \* history only: everything put on p3, p4, p8[x], p6[x], in order, and LC's checklist
+                   \* (iteration_termination_checklist) after each token it consumed
 
 vars == <<N, infwd, q3, lc, q4, cddone, pend, bterm, q8, q8b, lo, q6, tm, bpdone, em, hist>>
 View == <<N, infwd, q3, lc, q4, cddone, pend, bterm, q8, q8b, lo, q6, tm, bpdone, em>>
@@ -90,7 +104,7 @@ Init ==
   /\ tm = [have |-> [x \in Outs |-> {}], term |-> {}, done |-> FALSE]
   /\ bpdone = FALSE
   /\ em = [x \in Outs |-> [i \in {ITag(j) : j \in Inst} |-> <<>>]]
-  /\ hist = [p3 |-> <<>>, p4 |-> <<>>, p8 |-> [x \in Outs |-> <<>>], p6 |-> [x \in Outs |-> <<>>]]
+  /\ hist = [p3 |-> <<>>, p4 |-> <<>>, p8 |-> [x \in Outs |-> <<>>], p6 |-> [x \in Outs |-> <<>>], chk |-> <<>>]
 
 \* history helpers -------------------------------------------------------------------------------
 H3(h, tk, by) == [h EXCEPT !.p3 = Append(@, [tok |-> tk, by |-> by])]
@@ -166,7 +180,8 @@ LCStep ==
      IN /\ lc' = [s1 EXCEPT !.done = LCStops(s1)]
         /\ q4' = (IF tk.t = "tok" THEN Append(q4, Tok(LCOut(lc, tk))) ELSE q4)
                  \o (IF LCStops(s1) THEN <<Term>> ELSE <<>>)
-        /\ hist' = LET h1 == IF tk.t = "tok" THEN H4(hist, Tok(LCOut(lc, tk)), s1.n) ELSE hist
+        /\ hist' = LET h0 == [hist EXCEPT !.chk = Append(@, s1.chk)]
+                       h1 == IF tk.t = "tok" THEN H4(h0, Tok(LCOut(lc, tk)), s1.n) ELSE h0
                    IN IF LCStops(s1) THEN H4(h1, Term, s1.n) ELSE h1
   /\ q3' = Tail(q3)
   /\ UNCHANGED <<N, infwd, cddone, pend, bterm, q8, q8b, lo, q6, tm, bpdone, em>>
@@ -318,6 +333,12 @@ I3 == /\ \A x \in Outs : lo[x].done => \A it \in ITags : Len(em[x][it]) = 1
 TermLast == \A x \in Outs : bterm[x] => pend[x] = {} /\ cddone
 \* the iteration counter is per instance and never runs past the instance's count
 CounterOK == \A it \in DOMAIN lc.imap : it \in ITags /\ lc.imap[it] <= N[InstOf(it)]
+
+\* LC's checklist holds instance tags only, and every instance LC has seen stays in it until that instance has
+\* emitted on every output (this is what keeps the loop step alive while other instances finish: I3)
+ChkOK == /\ lc.chk \subseteq ITags
+         /\ \A it \in ITags : it \in lc.chk => it \in DOMAIN lc.imap
+         /\ \A it \in ITags : (it \in DOMAIN lc.imap /\ \E x \in Outs : Len(em[x][it]) = 0) => it \in lc.chk
 
 \* (L) every loop step terminates
 Termination == <>AllDone
